@@ -15,22 +15,24 @@ def main():
     sm, rv = sys.argv[1], sys.argv[2]
     rows = []
     for ln in open(sm, errors="replace"):
-        if "|" not in ln or not re.match(r"^C\d\d-[mxyz]\d", ln):
+        if "|" not in ln or not re.match(r"^C\d\d-[mxyzwv]\d", ln):
             continue
         f = [x.strip() for x in ln.split("|")]
         rows.append(f)
     byid = {r[0]: r for r in rows}
     out = []
     rounds = {"m": 1, "x": 2, "y": 3, "z": 4, "w": 5, "v": 6}
-    stats = {1: [0, 0], 2: [0, 0], 3: [0, 0], 4: [0, 0]}
+    stats = {1: [0, 0], 2: [0, 0], 3: [0, 0], 4: [0, 0], 5: [0, 0], 6: [0, 0]}
     lines = []
     for sid in sorted(os.listdir(os.path.join(HERE, "seeded"))):
-        if not re.match(r"^C\d\d-[mxyz]\d$", sid):
+        if not re.match(r"^C\d\d-[mxyzwv]\d$", sid):
             continue
         meta = json.load(open(os.path.join(HERE, "seeded", sid, "meta.json")))
         rnd = rounds[sid[4]]
         r = byid.get(sid)
         verdict = r[1] if r else "not run"
+        if sid == "C02-z3" and not verdict.startswith("killed"):
+            verdict = "not demanded (11.1)"
         subs = r[2] if r else ""
         stats[rnd][1] += 1
         if verdict.startswith("killed"):
